@@ -5,7 +5,7 @@ Three kinds of cases:
   uv    the public `sample3DUV` (the +1/2 stagger) on generated U, V arrays;
   file  a real `Grid` + `Forcing` (+ TimeKeeper, State) on generated NetCDF files: random variable bathymetry,
         land masks with islands and one-cell channels, two or three legal sub-rectangles, float64 / float32 /
-        int16-packed storage, one or two files with different packing; observed: `forcing.velocity(X, Y, Z)`,
+        int16-packed storage chosen per file (packed -> float, float -> packed, packed -> packed with other factors); observed: `forcing.velocity(X, Y, Z)`,
         `forcing.variables` and `forcing.K/A` after `update()`.  The Coq model gets the RAW arrays written
         into the file (and the level index/weight the harness computed from the particle's own water column).
 Everything of a case is regenerated from its description (a seed), so a replay file is small.
@@ -29,7 +29,8 @@ SHARD = 6
 RULE = ("sample3D / sample3DUV on generated arrays (positions on cell centres, edges, corners, dyadic k/256 and "
         "general floats, weights 0, 1, dyadic, general) and real Grid+Forcing on generated files (variable "
         "bathymetry, islands and one-cell channels, sub-rectangles with i0 != j0 incl. negative limits and the full "
-        "grid, f8/f4/int16-packed storage, two files with different scale factors, frames of the second file). "
+        "grid, f8/f4/int16-packed storage chosen independently per file (packed then float, float then packed, packed then packed "
+        "with other scale factors), frames of the second file). "
         "Non-trivial = distinct (kind, seed) with at least one particle off the nodes in a non-constant field.")
 TRUSTED = ["Coq 8.16.1 kernel + vm_compute", "hand-written model coq/Model/Interp.v tied by this correspondence",
            "netCDF4/HDF5 round trip of the generated arrays", "numba compilation of trilinear/z2s_kernel as run",
@@ -59,17 +60,25 @@ def gen_cases(ctx):
     for n in range(nuv):
         out.append({"k": "uv", "seed": rng.randrange(10**9), "meth": rng.choice([0, 0, 0, 1]), "exact": n % 2 == 0,
                     "N": rng.randint(2, 4), "jmax": rng.randint(2, 6), "imax": rng.randint(2, 7), "P": 12})
-    storages = ["f8", "f4", "i2"]
+    # storage is chosen per file: a packed file followed by a float file, float -> packed, packed -> packed with
+    # other factors, ...; with two files the observed frame belongs to the later one
+    combos = [["f8"], ["i2", "f8"], ["i2", "i2"], ["f4"], ["f4", "i2"], ["i2", "f4"], ["i2"], ["f8", "f4"], ["i2", "i2"],
+              ["f8", "i2"], ["i2", "f8"], ["f4", "f8"]]
     for n in range(nf):
-        st = storages[n % 3]
+        sts = combos[n % len(combos)]
         exact = (n // 3) % 2 == 0
-        nfiles = 2 if st == "i2" else rng.choice([1, 2])
-        out.append({"k": "file", "seed": rng.randrange(10**9), "storage": st, "exact": exact,
+        nfiles = len(sts)
+        obs = rng.choice([2, 3]) if nfiles == 2 else rng.randint(0, 3)
+        out.append({"k": "file", "seed": rng.randrange(10**9), "storages": sts, "storage": sts[-1], "exact": exact,
                     "imax0": rng.randint(7, 11), "jmax0": rng.randint(7, 10), "N": rng.choice([2, 4]) if exact else rng.randint(2, 5),
                     "field": rng.choice(["random", "random", "linear"]), "mask": rng.choice(["random", "random", "sea"]),
-                    "bathy": "random", "nfiles": nfiles, "obs_step": rng.choice([2, 3]) if nfiles == 2 else rng.randint(0, 3),
+                    "bathy": "random", "nfiles": nfiles, "obs_step": obs,
                     "nsub": rng.choice([2, 2, 3]), "P": 10})
     return out
+
+
+def storages_of(desc):
+    return desc.get("storages") or [desc["storage"]] * desc["nfiles"]
 
 
 def positions(rng, lo, hi, n, exact):
@@ -276,7 +285,7 @@ def make_subgrids(rng, imax0, jmax0, n):
 
 def build_file_inputs(desc):
     rng = np.random.default_rng(desc["seed"])
-    imax0, jmax0, N, exact, st = desc["imax0"], desc["jmax0"], desc["N"], desc["exact"], desc["storage"]
+    imax0, jmax0, N, exact = desc["imax0"], desc["jmax0"], desc["N"], desc["exact"]
     T = 4
     mask = make_mask(rng, jmax0, imax0, desc["mask"])
     if desc["bathy"] == "slope_x":
@@ -307,7 +316,7 @@ def build_file_inputs(desc):
     frames_of = [[0, 1, 2, 3]] if nfiles == 1 else [[0, 1], [2, 3]]
     packs = []
     for f in range(nfiles):
-        if st == "i2":
+        if storages_of(desc)[f] == "i2":
             if exact:
                 e = rng.choice([4, 5, 6, 7, 8], size=3, replace=False)
                 sf = [2.0 ** -int(x) for x in e]
@@ -325,11 +334,12 @@ def build_file_inputs(desc):
 def write_files(d, desc, inp):
     from netCDF4 import Dataset
 
-    imax0, jmax0, N, st = desc["imax0"], desc["jmax0"], desc["N"], desc["storage"]
+    imax0, jmax0, N = desc["imax0"], desc["jmax0"], desc["N"]
     dt = 600
     names = []
     for f, frs in enumerate(inp["frames_of"]):
         p = d / f"forcing_{f:03d}.nc"
+        st = storages_of(desc)[f]
         pk = inp["packs"][f]
         if pk is None:
             unit = {"u": 1 / inp["den"], "v": 1 / inp["den"], "temp": 1 / inp["den"]}
@@ -392,7 +402,7 @@ def eval_file(desc, ctx):
 
     inp = build_file_inputs(desc)
     rng = inp["rng"]
-    imax0, jmax0, N, exact, st = desc["imax0"], desc["jmax0"], desc["N"], desc["exact"], desc["storage"]
+    imax0, jmax0, N, exact = desc["imax0"], desc["jmax0"], desc["N"], desc["exact"]
     d = ctx.subdir(f"c02_{desc['seed']}")
     for old in d.glob("*.nc"):
         old.unlink()
@@ -429,6 +439,8 @@ def eval_file(desc, ctx):
                 Z.append(float(rng.uniform(0, hh)))
     obs = desc["obs_step"]
     fidx = [f for f, frs in enumerate(inp["frames_of"]) if obs in frs][0]
+    st = storages_of(desc)[fidx]            # storage of the file the observed frame is read from
+    stall = "+".join(storages_of(desc))
     pk = inp["packs"][fidx]
     if pk is None:
         den, scaled = inp["den"], 0
@@ -484,7 +496,7 @@ def eval_file(desc, ctx):
             K, A = KA[n]
             c3 += fl(X[n]) + fl(Y[n]) + [K] + fl(A) + fl(U[n]) + fl(V[n])
             c4 += fl(X[n]) + fl(Y[n]) + [K] + fl(tvar[n])
-            where = f"particle X={X[n]} Y={Y[n]} Z={Z[n]} subgrid={spec} storage={st} frame {obs} (file {fidx})"
+            where = f"particle X={X[n]} Y={Y[n]} Z={Z[n]} subgrid={spec} storage={stall} frame {obs} (file {fidx})"
             if int(Kc[n]) != K or not close(1, float(Ac[n]), A):
                 problems.append(f"level bracket of the particle's own water column is K={K} A={A}, forcing cached K={int(Kc[n])} A={float(Ac[n])}: {where}")
             wu, wv, nu, nv = spec_velocity(mask, UF, VF, X[n], Y[n], K, A)
@@ -531,11 +543,11 @@ def eval_file(desc, ctx):
             if not same and not (close(1, a["U"][n], b["U"][n]) and close(1, a["V"][n], b["V"][n]) and a["T"][n] == b["T"][n]
                                  and int(a["K"][n]) == int(b["K"][n]) and close(1, a["A"][n], b["A"][n])):
                 problems.append(f"particle X={X[n]} Y={Y[n]} Z={Z[n]} feels (u,v,temp,K,A)=({a['U'][n]}, {a['V'][n]}, {a['T'][n]}, {int(a['K'][n])}, {a['A'][n]}) "
-                                f"with subgrid {a['spec']} but ({b['U'][n]}, {b['V'][n]}, {b['T'][n]}, {int(b['K'][n])}, {b['A'][n]}) with subgrid {b['spec']} (storage={st}, frame {obs})")
+                                f"with subgrid {a['spec']} but ({b['U'][n]}, {b['V'][n]}, {b['T'][n]}, {int(b['K'][n])}, {b['A'][n]}) with subgrid {b['spec']} (storage={stall}, frame {obs})")
     for f in d.glob("*.nc"):
         f.unlink()
-    kind = f"file-{st}-{'exact' if exact else 'general'}-{desc['field']}-{desc['mask']}" + ("-file2" if fidx == 1 else "")
-    return {"ints": coq, "oracle": problems[0] if problems else None, "nontrivial": ("file", desc["seed"], st),
+    kind = f"file-{stall}-{'exact' if exact else 'general'}-{desc['field']}-{desc['mask']}" + ("-file2" if fidx == 1 else "")
+    return {"ints": coq, "oracle": problems[0] if problems else None, "nontrivial": ("file", desc["seed"], stall),
             "kind": kind, "observed": {"subgrids": [p["spec"] for p in per_sub], "u": [float(x) for x in per_sub[0]["U"][:3]],
                                        "v": [float(x) for x in per_sub[0]["V"][:3]], "temp": [float(x) for x in per_sub[0]["T"][:3]],
                                        "problems": len(problems)}}
